@@ -988,3 +988,92 @@ pub fn c18_stats(cx: &mut Ctx) {
         }
     }
 }
+
+/// C15 — an accepted configuration is a servable configuration.
+///
+/// This oracle runs only when PgCat accepted the file (a refusal at startup ends the child
+/// with the CONFIG status and is turned into a verdict by the parent). Kinds the property lists
+/// as not servable must not get here. Otherwise: no panic, the pooler is alive, every probe
+/// (user, shard id as written in the file, role) was executed on one of the servers the file
+/// lists for that shard and role, the default-shard probe on the default shard, and the admin
+/// commands were answered.
+pub fn c15_config(cx: &mut Ctx) {
+    let h = cx.h;
+    let kind = cx.param_str("c15_kind");
+    let expect = cx.param_str("c15_expect");
+    let plan = cx.spec.params.get("c15_plan").cloned().unwrap_or_default();
+    cx.probe("c15_config_accepted");
+    cx.probe(&format!("c15_accepted_{}", kind));
+    if expect == "reject" {
+        cx.v("C15", "unservable_accepted", &format!("C15/unservable_config_accepted/{}", kind), 0, format!("a configuration with {} was accepted at startup", kind));
+    }
+    for p in &h.panics {
+        let loc = p.split(" at ").nth(1).unwrap_or("").split(':').take(2).collect::<Vec<_>>().join(":");
+        cx.v("C15", "panic", &format!("C15/panic/{}/{}", kind, loc.replace("/repo/", "")), 0, format!("configuration kind {}: {}", kind, p));
+    }
+    if let Some((seq, us)) = simcore::rt::pgcat_exit() {
+        cx.v("C15", "pooler_terminated", &format!("C15/pooler_terminated/{}", kind), seq, format!("configuration kind {}: PgCat's main ended at {} ms", kind, us / 1000));
+    }
+    for c in h.clients.values() {
+        if c.role == "admin" {
+            for s in c.steps.iter().filter(|s| s.op == "send") {
+                cx.probe("c15_admin_step_checked");
+                let err = s.msgs.iter().any(|m| m.ty == b'E');
+                if !matches!(s.outcome, StepOutcome::Ready(_)) || err {
+                    cx.v("C15", "admin_failed", &format!("C15/admin_command_failed/{}", kind), s.done_seq, format!("configuration kind {}: admin step {} ended {:?}", kind, s.idx, s.outcome));
+                }
+            }
+            if c.auth_result != "ok" {
+                cx.v("C15", "admin_failed", &format!("C15/admin_login_failed/{}", kind), c.connect_seq, format!("configuration kind {}: admin login: {}", kind, c.auth_result));
+            }
+            continue;
+        }
+        if c.role != "probe" {
+            continue;
+        }
+        for s in c.steps.iter().filter(|s| s.op == "send" && !s.tags.is_empty()) {
+            let tag = s.tags[0];
+            let entry = match plan.get(tag.to_string()) {
+                Some(e) => e.clone(),
+                None => continue,
+            };
+            let execs: Vec<usize> = cx.ix.exec_by_tag.get(&tag).cloned().unwrap_or_default();
+            let errs: Vec<String> = c.steps.iter().flat_map(|x| x.msgs.iter()).filter(|m| m.ty == b'E').map(|m| proto::error_fields(&m.body).get(&'M').cloned().unwrap_or_default()).collect();
+            if let Some(ds) = entry.get("default_shard").and_then(|v| v.as_str()) {
+                cx.probe("c15_default_shard_probe_checked");
+                let want: Option<i32> = ds.strip_prefix("shard_").and_then(|x| x.parse::<i32>().ok());
+                if execs.is_empty() {
+                    cx.v("C15", "cannot_serve", &format!("C15/accepted_config_cannot_serve_default_shard/{}", kind), s.done_seq, format!("configuration kind {} (default_shard {}): the probe of user {} without shard selection was executed nowhere; login {}, errors {:?}", kind, ds, c.user, c.auth_result, errs));
+                }
+                for ei in &execs {
+                    let host = &h.backend_conns[h.stmts[*ei].conn].host;
+                    let label = cx.spec.hosts.iter().find(|x| &x.addr == host).map(|x| x.shard).unwrap_or(-2);
+                    if let Some(w) = want {
+                        if label != w {
+                            cx.v("C15", "misroute", &format!("C15/accepted_config_misroutes_default_shard/{}", kind), h.stmts[*ei].rec.seq, format!("configuration kind {}: default_shard {} but the probe ran on {} (shard {})", kind, ds, host, label));
+                        }
+                    }
+                }
+                continue;
+            }
+            cx.probe("c15_probe_checked");
+            let hosts: Vec<String> = entry.get("hosts").and_then(|v| v.as_array()).map(|a| a.iter().filter_map(|x| x.as_str().map(|s| s.to_string())).collect()).unwrap_or_default();
+            let shard_id = entry.get("shard_id").and_then(|v| v.as_str()).unwrap_or("").to_string();
+            let role = entry.get("role").and_then(|v| v.as_str()).unwrap_or("").to_string();
+            if execs.is_empty() {
+                cx.v("C15", "cannot_serve", &format!("C15/accepted_config_cannot_serve/{}", kind), s.done_seq, format!("configuration kind {}: shard {:?} role {} user {} could not be addressed (the file lists {:?} for it); login {}, errors {:?}", kind, shard_id, role, c.user, hosts, c.auth_result, errs));
+            }
+            for ei in &execs {
+                let host = &h.backend_conns[h.stmts[*ei].conn].host;
+                if !hosts.contains(host) {
+                    cx.v("C15", "misroute", &format!("C15/accepted_config_misroutes/{}", kind), h.stmts[*ei].rec.seq, format!("configuration kind {}: the probe for shard {:?} role {} ran on {}, the file lists {:?} for that shard and role", kind, shard_id, role, host, hosts));
+                }
+            }
+        }
+        // a probe that could not even log in or select its shard
+        if c.steps.iter().all(|s| s.tags.is_empty()) {
+            let errs: Vec<String> = c.steps.iter().flat_map(|x| x.msgs.iter()).filter(|m| m.ty == b'E').map(|m| proto::error_fields(&m.body).get(&'M').cloned().unwrap_or_default()).collect();
+            cx.v("C15", "cannot_serve", &format!("C15/accepted_config_probe_stopped_early/{}", kind), c.connect_seq, format!("configuration kind {}: probe client {} (user {}) never reached its statement: login {}, errors {:?}", kind, c.id, c.user, c.auth_result, errs));
+        }
+    }
+}
